@@ -315,6 +315,27 @@ class PredEval:
             # a loop over something this evaluator cannot enumerate runs an unknown number of times: neither the path that
             # skips it nor the one that takes it once is known to be the one taken
             for e in p.events:
+                if e[0] == "loop" and e[1][0] == "attr" and e[1][2] == "__mro__":
+                    # `for base in X.__mro__: if vars(base).get("__annotations__"): return True` -- the loop spelling of
+                    # "annotated somewhere along its bases" (the comprehension spelling is an idiom of call())
+                    a = self.val(e[1][1], env0, depth + 1)
+                    ann = None
+                    if isinstance(a, TypeArg) and not a.subscripted:
+                        if a.flags:
+                            ann = "annotated" in a.flags
+                        else:
+                            try:
+                                ann = any(vars(b).get("__annotations__") for b in oracle.stdlib_class(a.cls).__mro__)
+                            except Exception:
+                                ann = None
+                    tests = [pol for g, pol in p.guards() if T.contains(g, lambda y: y == ("elem", e[1])) and T.contains(g, lambda y: y == ("const", "__annotations__") or (y[0] == "attr" and y[2] == "__annotations__"))]
+                    if ann is None or len(tests) > 1 or (e[2] == 1 and not tests):
+                        unknown_guard = True
+                    elif e[2] == 0:
+                        feasible = False  # (an MRO is never empty)
+                    elif tests[0] != ann:
+                        feasible = False
+                    continue
                 if e[0] == "loop":
                     itv = self.val(e[1], env0, depth + 1)
                     if not (isinstance(itv, tuple) and not (itv and isinstance(itv[0], str))):
